@@ -32,3 +32,112 @@ package inject
 //@   pure
 //@   panics true
 //@   skip nil
+
+// ---------------------------------------------------------------------------
+// C04: resolution by type, nearest scope first
+// ---------------------------------------------------------------------------
+
+// What Value(t) may answer for scope inj: the exact registration if it is valid; otherwise, for an interface type,
+// the value registered in THIS scope under some implementing type; only then the parent scope; else the invalid value.
+//@ define hasImpl(inj *injector, t reflect.Type) bool = rtKind(t) == 20 && (exists k reflect.Type :: has(inj.values, k) && rtImplements(k, t))
+//@ define valueOK(inj *injector, t reflect.Type, v reflect.Value) bool =
+//@     (rvValid(inj.values[t]) ==> v == inj.values[t]) &&
+//@     (!rvValid(inj.values[t]) && !hasImpl(inj, t) ==> v == ite(inj.parent != nil, injValue(inj.parent, t), inj.values[t])) &&
+//@     (!rvValid(inj.values[t]) && hasImpl(inj, t) ==> exists k reflect.Type :: has(inj.values, k) && rtImplements(k, t) &&
+//@         (v == inj.values[k] || (!rvValid(inj.values[k]) && inj.parent != nil && v == injValue(inj.parent, t))))
+
+//@ define injOK(inj *injector) bool = inj.values != nil && (forall k reflect.Type :: has(inj.values, k) ==> k != nil)
+
+//@ func (*injector).Value
+//@   props C04
+//@   requires injOK(inj) && t != nil
+//@   modifies nothing
+//@   ensures valueOK(inj, t, result)
+//@   loop 0 invariant (val == inj.values[t] && (forall k reflect.Type :: visited(k) ==> !rtImplements(k, t))) ||
+//@       (exists k reflect.Type :: has(inj.values, k) && rtImplements(k, t) && val == inj.values[k])
+
+// registration: a later registration for the same type replaces the earlier one
+//@ func (*injector).MapTo
+//@   props C04
+//@   requires inj.values != nil
+//@   modifies inj.values[*]
+//@   panics true
+//@   ensures inj.values[inject.InterfaceOf(ifacePtr)] == reflect.ValueOf(val) && has(inj.values, inject.InterfaceOf(ifacePtr))
+//@   ensures forall k reflect.Type :: k != inject.InterfaceOf(ifacePtr) ==> inj.values[k] == old(inj.values[k]) && has(inj.values, k) == old(has(inj.values, k))
+//@ func (*injector).Set
+//@   props C04
+//@   requires inj.values != nil
+//@   modifies inj.values[*]
+//@   ensures inj.values[typ] == val && has(inj.values, typ)
+//@   ensures forall k reflect.Type :: k != typ ==> inj.values[k] == old(inj.values[k]) && has(inj.values, k) == old(has(inj.values, k))
+//@ func (*injector).SetParent
+//@   props C04
+//@   modifies inj.parent
+//@   ensures inj.parent == parent
+//@ func (*injector).Map
+//@   props C04
+//@   requires inj.values != nil
+//@   modifies inj.values[*]
+//@   ensures forall j int :: 0 <= j && j < len(values) ==> has(inj.values, reflect.TypeOf(values[j]))
+//@   ensures len(values) > 0 ==> inj.values[reflect.TypeOf(values[len(values) - 1])] == reflect.ValueOf(values[len(values) - 1])
+//@   loop 0 invariant forall j int :: 0 <= j && j <= rangeindex ==> has(inj.values, reflect.TypeOf(values[j]))
+//@   loop 0 invariant rangeindex >= 0 ==> inj.values[reflect.TypeOf(values[rangeindex])] == reflect.ValueOf(values[rangeindex])
+
+// Invocation: every parameter is resolved with Value in order; the first one that cannot be resolved makes the
+// invocation fail WITHOUT calling the function; otherwise the function is called exactly once with exactly the
+// resolved values, and its results are handed back unchanged.
+//@ ghost field FastInvoker.invocations int
+//@ ghost field FastInvoker.lastArgs map[int]interface{}
+//@ ghost field FastInvoker.lastNArgs int
+//@ ghost private field injector.resolved map[int]reflect.Value   // the value Value() answered for parameter i of the current invocation
+
+//@ iface FastInvoker.Invoke(this, args) vals, err
+//@   modifies *
+//@   panics true
+//@   ensures this.invocations == old(this.invocations) + 1 && this.lastNArgs == len(args)
+//@   ensures forall i int :: 0 <= i && i < len(args) ==> this.lastArgs[i] == old(args[i])
+
+//@ func (*injector).fastInvoke
+//@   props C04
+//@   requires injOK(inj) && f != nil && t != nil && numIn >= 0
+//@   modifies *
+//@   panics true
+//@   ghost before IsValid#0: inj.resolved[i] = val
+//@   ensures f.invocations == old(f.invocations) || f.invocations == old(f.invocations) + 1
+//@   ensures f.invocations == old(f.invocations) ==> result1 != nil
+//@   ensures f.invocations == old(f.invocations) + 1 ==> f.lastNArgs == ite(numIn > 0, numIn, 0) &&
+//@       (forall j int :: 0 <= j && j < numIn ==> rvValid(inj.resolved[j]) && f.lastArgs[j] == rvIface(inj.resolved[j]))
+//@   loop 0 invariant injOK(inj) && 0 <= i && i <= numIn && len(in) == numIn && fresh(in) && f.invocations == old(f.invocations)
+//@   loop 0 invariant forall j int :: 0 <= j && j < i ==> rvValid(inj.resolved[j])
+//@   loop 0 invariant forall j int :: 0 <= j && j < i ==> in[j] == rvIface(inj.resolved[j])
+//@   loop 0 invariant forall j int :: 0 <= j && j < i ==> valueOK(inj, rtIn(t, j), inj.resolved[j])
+
+//@ ghost private field injector.calls int   // reflective calls made by callInvoke
+
+//@ func (*injector).callInvoke
+//@   props C04
+//@   requires injOK(inj) && t != nil && numIn >= 0
+//@   modifies *
+//@   panics true
+//@   ghost before IsValid#0: inj.resolved[i] = val
+//@   assert before Call#0: len(in) == ite(numIn > 0, numIn, 0) && (forall j int :: 0 <= j && j < numIn ==> rvValid(inj.resolved[j]) && in[j] == inj.resolved[j] && valueOK(inj, rtIn(t, j), inj.resolved[j]))
+//@   ghost before Call#0: inj.calls = inj.calls + 1
+//@   ensures inj.calls == old(inj.calls) || inj.calls == old(inj.calls) + 1
+//@   ensures inj.calls == old(inj.calls) ==> result1 != nil
+//@   ensures inj.calls == old(inj.calls) + 1 ==> result1 == nil
+//@   loop 0 invariant injOK(inj) && 0 <= i && i <= numIn && len(in) == numIn && fresh(in) && inj.calls == old(inj.calls)
+//@   loop 0 invariant forall j int :: 0 <= j && j < i ==> rvValid(inj.resolved[j])
+//@   loop 0 invariant forall j int :: 0 <= j && j < i ==> in[j] == inj.resolved[j]
+//@   loop 0 invariant forall j int :: 0 <= j && j < i ==> valueOK(inj, rtIn(t, j), inj.resolved[j])
+
+// Invoke: fast invokers go through their Invoke method, everything else through reflection; same resolution for both
+//@ func (*injector).Invoke
+//@   props C04
+//@   requires injOK(inj) && f != nil
+//@   modifies *
+//@   panics true
+//@   skip nil@call:NumIn
+
+//@ func IsFastInvoker
+//@   props C04
+//@   ensures result == implements(handler, type(FastInvoker))
